@@ -14,9 +14,9 @@ RULE = ("E2: breadth-first search over call histories on the real code (5 classe
         "everywhere]; depth 2, thorough adds depth 3 on the reduced alphabet); on every transition I1 (model "
         "snapshot unchanged) and I2 (bit-identical to the same call on a fresh model and fresh ratings with the same "
         "values, other ids and names; the same again with every rating carrying one id), I8 (a valid call leaves its teams / ranks / scores containers unchanged, so a "
-        "caller that re-uses them gets answers independent of the earlier call). E3: every schedule with <= b preemptions of harnesses H1-H8 (2-3 threads sharing "
+        "caller that re-uses them gets answers independent of the earlier call). E3: every schedule with <= b preemptions of harnesses H1-H9 (2-3 threads sharing "
         "one model) at source-line and opcode granularity; each thread's result must be bit-identical to its solo result. "
-        "Re-entrancy: every inner call executed inside every gamma invocation of every outer rate() on the same model. "
+        "I1 is also evaluated over E1 spaces that reach the kappa floor, 6-8 teams, large custom gamma and big teams. Re-entrancy: every inner call executed inside every gamma invocation of every outer rate() on the same model. "
         "Seeds: the same exploration re-run under PYTHONHASHSEED in {0,1,2^32-1,VERIF_SEED} with different rating ids; "
         "digests of all observations must coincide.")
 ASSUMPTIONS = [
@@ -33,7 +33,7 @@ def e3_plan(ctx):
     plan = []
     for kind in spaces.KINDS:
         if ctx.thorough:
-            for h in ("H1", "H2", "H3", "H6", "H8"):  # ~550-800 line points: b <= 2 is ~1.5e5-3e5 executions each
+            for h in ("H1", "H2", "H3", "H6", "H8", "H9"):  # ~550-800 line points: b <= 2 is ~1.5e5-3e5 executions each
                 plan.append((h, kind, "line", 2, 48))
                 plan.append((h, kind, "opcode", 1, 4))
             for h in ("H4", "H7"):  # ~2000 line points: unrestricted b <= 2 would be ~2e6 executions per class: b <= 1 at both
@@ -42,7 +42,7 @@ def e3_plan(ctx):
                 plan.append((h, kind, "line-helper", 2, 16))
             plan.append(("H5", kind, "line", 1, 8))
         else:
-            for h in ("H1", "H2", "H3", "H4", "H6", "H7", "H8"):
+            for h in ("H1", "H2", "H3", "H4", "H6", "H7", "H8", "H9"):
                 plan.append((h, kind, "line", 1, 1))
             if kind in spaces.TM:  # b <= 2 with both preemptions inside the shared helper module (v, w, vt, wt, phi: only TM goes there)
                 plan.append(("H8", kind, "line-helper", 2, 16))
@@ -102,7 +102,41 @@ def run_census_unit(unit, ctx):
     return acc
 
 
+I1_SPACES = [("S2", "K7"), ("T3|V6", "K7"), ("T4|V3", "K7"), ("P3", "K2"), ("D7b1", "K0"), ("D8b1", "K0"), ("PK", "K0"), ("T4|V3", "K5")]
+
+
+def run_i1_unit(unit, ctx):
+    """I1 over the input space: the E2 league has at most 3 teams, so code that touches the model only in rare regions (the kappa
+    floor, >= 6 teams, large custom gamma, big teams) is never reached there.  Here every game x outcome of a few E1 spaces that DO
+    reach those regions is rated / predicted once and the model snapshot (and class / module level state) must be unchanged."""
+    from vf import lib
+
+    _, kind, sp, K, k, parts = unit
+    cfg = spaces.config(K)
+    acc = core.Acc()
+    for game in spaces.sharded(spaces.value_games(sp, kind, cfg), k, parts):
+        n = len(game)
+        for ranks in (tuple(range(n)), tuple(reversed(range(n))), (0,) * n, tuple([0, 0] + list(range(1, n - 1)))):
+            model = cfg.make(kind)
+            s0 = e2.snap_model(model)
+            try:
+                model.rate(lib.ratings(model, game), ranks=list(ranks))
+                t = lib.ratings(model, game)
+                model.predict_win(t), model.predict_draw(t), model.predict_rank(t)
+            except Exception:
+                pass  # totality is C08's business
+            acc.evals += 1
+            acc.add("i1_space_calls", 4)
+            s1 = e2.snap_model(model)
+            if s1 != s0:
+                acc.violation(PID, f"I1space:{kind}", f"model attributes changed by rate/predict on game {game} ranks {list(ranks)} [{K}]: {e2.diff_snap(s0, s1)}",
+                              {"engine": "I1S", "kind": kind, "cfg": K, "game": core.game_hex(game), "ranks": list(ranks)})
+    return acc
+
+
 def dispatch(unit, ctx):
+    if unit[0] == "i1":
+        return run_i1_unit(unit, ctx)
     if unit[0] == "e3":
         return run_e3_unit(unit, ctx)
     if unit[0] == "census":
@@ -182,6 +216,21 @@ def replay(case):
             return e3.check(ex, snap0, solo_res)
         except e3.Unstable:
             return []
+    if eng == "I1S":
+        from vf import lib
+
+        cfg = spaces.config(case["cfg"])
+        game = core.game_unhex(case["game"])
+        model = cfg.make(case["kind"])
+        s0 = e2.snap_model(model)
+        try:
+            model.rate(lib.ratings(model, game), ranks=list(case["ranks"]))
+            t = lib.ratings(model, game)
+            model.predict_win(t), model.predict_draw(t), model.predict_rank(t)
+        except Exception:
+            pass
+        s1 = e2.snap_model(model)
+        return [] if s1 == s0 else [f"model attributes changed: {e2.diff_snap(s0, s1)}"]
     if eng == "REENT":
         return reent.replay(case["kind"], case["limit"], case["outer"], case["inner"], case["k"])
     if eng == "SEED":
@@ -236,6 +285,9 @@ def main(ctx, t0):
             units.append(("census", h, kind))
     for kind in spaces.KINDS:
         units.append(("reent", kind))
+        for sp, K in I1_SPACES:
+            for k in range(2):
+                units.append(("i1", kind, sp, K, k, 2))
     if ctx.thorough:
         for kind in spaces.KINDS:
             for h in ("H1", "H5"):
@@ -272,7 +324,7 @@ def main(ctx, t0):
 
 
 def replay_unit(unit, ctx):
-    if unit and unit[0] in ("e3", "census", "free", "reent"):
+    if unit and unit[0] in ("e3", "census", "free", "reent", "i1"):
         return dispatch(unit, ctx)
     core.deterministic_ids(0)
     acc = e2._expand(unit, ctx)
